@@ -161,7 +161,7 @@ package queue
 //@ ghost addLastQueue map[int]*TaskQueue
 
 //@ func (*TaskQueue).AddLast
-//@   prop C05, C03
+//@   prop C05, C03, C04
 //@   opt old=cs
 //@   requires t != nil
 //@   modifies q.items, q.measureActionFn, allelems(task.Task), nMut, nAddLast, addLastTask, addLastQueue
